@@ -998,58 +998,66 @@ func roundTripWorksWithoutPrecision(s Session) bool {
 	return ok && checkRoundTrip(s2, r) == nil
 }
 
-// permutedIdentities reports whether, in some array of v, two members that
-// carry all the keys hold the same key values taken together, but not key by
-// key: {"id":1,"ns":2} next to {"id":2,"ns":1}.
-func permutedIdentities(v *Val, keys []string) bool {
-	if v == nil || len(keys) < 2 {
+// permutedIdentities reports whether two array members of the given documents
+// (of one document, or one of each: the differ pairs members of the first
+// input with members of the second) that carry all the keys hold the same key
+// values taken together, but not key by key: {"id":1,"ns":2} and
+// {"id":2,"ns":1}.
+func permutedIdentities(docs []*Val, keys []string) bool {
+	if len(keys) < 2 {
 		return false
 	}
 	m := cmpMode{Arrays: "set"}
-	for _, c := range containers(v, nil) {
-		if c.K != 'a' {
+	var ids [][]*Val
+	for _, v := range docs {
+		if v == nil {
 			continue
 		}
-		var ids [][]*Val
-		for _, e := range c.Elems {
-			if e.K != 'o' {
+		for _, c := range containers(v, nil) {
+			if c.K != 'a' {
 				continue
 			}
-			var id []*Val
-			for _, k := range keys {
-				if x, ok := e.get(k); ok {
-					id = append(id, x)
-				}
-			}
-			if len(id) != len(keys) {
-				continue
-			}
-			for _, o := range ids {
-				same := true
-				for x := range id {
-					if !equalVals(o[x], id[x], m) {
-						same = false
-					}
-				}
-				if same {
+			for _, e := range c.Elems {
+				if e.K != 'o' {
 					continue
 				}
-				used := make([]bool, len(id))
-				matched := 0
-				for _, x := range o {
-					for j, y := range id {
-						if !used[j] && equalVals(x, y, m) {
-							used[j] = true
-							matched++
-							break
-						}
+				var id []*Val
+				for _, k := range keys {
+					if x, ok := e.get(k); ok {
+						id = append(id, x)
 					}
 				}
-				if matched == len(id) {
-					return true
+				if len(id) == len(keys) {
+					ids = append(ids, id)
 				}
 			}
-			ids = append(ids, id)
+		}
+	}
+	for i, id := range ids {
+		for _, o := range ids[:i] {
+			same := true
+			for x := range id {
+				if !equalVals(o[x], id[x], m) {
+					same = false
+				}
+			}
+			if same {
+				continue
+			}
+			used := make([]bool, len(id))
+			matched := 0
+			for _, x := range o {
+				for j, y := range id {
+					if !used[j] && equalVals(x, y, m) {
+						used[j] = true
+						matched++
+						break
+					}
+				}
+			}
+			if matched == len(id) {
+				return true
+			}
 		}
 	}
 	return false
@@ -1064,8 +1072,14 @@ func setkeysPermutedIdentity(s Session, keys []string, yaml bool) bool {
 	if len(keys) < 2 {
 		return false
 	}
+	var docs []*Val
+	for _, f := range s.Files {
+		if v, err := parseDoc(string(f.Data), yaml); err == nil && v != nil {
+			docs = append(docs, v)
+		}
+	}
+	found := permutedIdentities(docs, keys)
 	return sessionPassesAfter(s, yaml, func(v *Val) bool {
-		found := permutedIdentities(v, keys)
 		for _, c := range containers(v, nil) {
 			if c.K != 'a' {
 				continue
